@@ -234,10 +234,8 @@ class Adapter:
                     raise MachineryError("garbage blob unpickles")
                 except MachineryError:
                     raise
-                except pickle.UnpicklingError:
-                    pass
                 except Exception:
-                    blob = b"garbage"
+                    pass
             c = sqlite3.connect(self.dbpath)
             n = c.execute("UPDATE models SET data=? WHERE txt_hash=? AND pymoca_version=?",
                           (blob, h, VERS[act["v"]])).rowcount
@@ -406,8 +404,11 @@ def run_history(texts, acts, dsts, seed, check_state=True):
                     if got["db"] != want["db"]:
                         kinds.append("db:" + ",".join(sorted(f for f in set(got["db"]) | set(want["db"])
                                                              if got["db"].get(f) != want["db"].get(f))))
-                    drift.append("%s after %s" % ("/".join(kinds), act["act"]))
-                    break   # re-synchronising is not possible on a fixed path: stop this path
+                    if not drift:
+                        drift.append("%s after %s" % ("/".join(kinds), act["act"]))
+                    # keep going: the remaining actions are still legal inputs, and verdicts only use the
+                    # property's observables (result vs. uncached parse), never the spec state
+                    check_state = False
         return recs, drift, k + 1 if acts else 0
     finally:
         ad.close()
